@@ -397,6 +397,7 @@ type Case struct {
 	TxOpts      bool   `json:"txopts,omitempty"`      // Begin / Transaction get explicit *sql.TxOptions
 	Panic       []bool `json:"panic,omitempty"`       // per level: the failing block panics instead of returning the error
 	Savepoint   string `json:"savepoint,omitempty"`   // manual transaction: explicit SavePoint around the inner part: keep | rollback
+	Mid         int    `json:"mid,omitempty"`         // third run: the caller's context is cancelled in flight, when the Mid-th driver call starts
 	Ops         []Op   `json:"ops"`
 }
 
@@ -470,6 +471,18 @@ func ownersOf(o Op, ids []int) []Owner {
 		}
 	}
 	return out
+}
+
+// loadKeys gives an owner value the foreign keys its seeded row has, as a record read
+// from the database carries them: the Unscoped belongs-to branches of association mode find
+// the records to delete through the owners' in-memory foreign keys.
+func loadKeys(o *Owner) {
+	if c, ok := map[uint]uint{1: 1, 2: 2, 4: 1}[o.ID]; ok {
+		o.CompanyID = uptr(c)
+	}
+	if r, ok := map[uint]uint{1: 1, 2: 2, 4: 1}[o.ID]; ok {
+		o.Contact.RegionID = uptr(r)
+	}
 }
 
 func assocValues(name string, vals []int) []interface{} {
@@ -699,9 +712,18 @@ func execOp(h *gorm.DB, o Op) error {
 		var model interface{}
 		if len(o.IDs) > 0 {
 			ows := ownersOf(Op{}, o.IDs)
+			if o.Form == "loaded" {
+				for i := range ows {
+					loadKeys(&ows[i])
+				}
+			}
 			model = &ows
 		} else {
-			model = &Owner{ID: uint(o.ID)}
+			ow := &Owner{ID: uint(o.ID)}
+			if o.Form == "loaded" {
+				loadKeys(ow)
+			}
+			model = ow
 		}
 		as := h.Model(model).Association(o.Name)
 		if o.Unscoped {
@@ -1364,7 +1386,7 @@ func genOp(rt *rapid.T, txNone, oneUse, noMigrate bool) Op {
 		}
 	case "assoc":
 		o.Name = rapid.SampledFrom([]string{"Company", "Profile", "Items", "Tags", "Notes"}).Draw(rt, "assoc")
-		o.Verb = rapid.SampledFrom([]string{"find", "count", "append", "replace", "delete", "clear"}).Draw(rt, "verb")
+		o.Verb = rapid.SampledFrom([]string{"replace", "clear", "delete", "append", "find", "count"}).Draw(rt, "verb")
 		maxID := map[string]int{"Company": 2, "Profile": 3, "Items": 6, "Tags": 3, "Notes": 4}[o.Name]
 		single := o.Name == "Company" || o.Name == "Profile"
 		o.ID = rapid.IntRange(1, 5).Draw(rt, "id")
@@ -1377,6 +1399,7 @@ func genOp(rt *rapid.T, txNone, oneUse, noMigrate bool) Op {
 			if o.Verb == "find" && rapid.Bool().Draw(rt, "cond") {
 				o.Age = 1
 			}
+			o.Unscoped = rapid.IntRange(0, 3).Draw(rt, "unscoped") == 0
 		case "append", "replace":
 			if single {
 				o.Vals = []int{genRef(rt, "val", maxID)}
@@ -1386,7 +1409,7 @@ func genOp(rt *rapid.T, txNone, oneUse, noMigrate bool) Op {
 					o.Vals = []int{-1}
 				}
 			}
-			o.Unscoped = o.Verb == "replace" && rapid.IntRange(0, 3).Draw(rt, "unscoped") == 0
+			o.Unscoped = rapid.Bool().Draw(rt, "unscoped")
 		case "delete":
 			n := 1
 			if !single {
@@ -1395,9 +1418,12 @@ func genOp(rt *rapid.T, txNone, oneUse, noMigrate bool) Op {
 			perm := rapid.Permutation([]int{1, 2, 3, 4, 5, 6}[:maxID]).Draw(rt, "vals")
 			o.Vals = append([]int(nil), perm[:n]...)
 			sort.Ints(o.Vals)
-			o.Unscoped = rapid.IntRange(0, 3).Draw(rt, "unscoped") == 0
+			o.Unscoped = rapid.Bool().Draw(rt, "unscoped")
 		case "clear":
-			o.Unscoped = rapid.IntRange(0, 3).Draw(rt, "unscoped") == 0
+			o.Unscoped = rapid.Bool().Draw(rt, "unscoped")
+		}
+		if rapid.IntRange(0, 2).Draw(rt, "loaded") != 0 {
+			o.Form = "loaded" // the owner values carry their foreign keys, like records read from the database
 		}
 		if o.Verb != "find" && o.Verb != "count" && rapid.IntRange(0, 2).Draw(rt, "multi") == 0 {
 			// a slice of owners as the model: append / replace take one value per owner
@@ -1490,6 +1516,9 @@ func genCase(rt *rapid.T) Case {
 	c.CancelFirst = rapid.Bool().Draw(rt, "cancelfirst")
 	c.Ctx = rapid.SampledFrom([]string{"deadline", "cancel", "timeout", "value"}).Draw(rt, "ctx")
 	c.Dead = rapid.SampledFrom([]string{"cancelled", "expired"}).Draw(rt, "dead")
+	if c.Ctx != "value" && rapid.Bool().Draw(rt, "mid") {
+		c.Mid = rapid.IntRange(1, 8).Draw(rt, "mid.k")
+	}
 	c.Hook = rapid.SampledFrom([]string{"", "", "exec", "create", "count", "preload"}).Draw(rt, "hook")
 	if c.Hook != "" {
 		c.HookAt = rapid.SampledFrom([]string{"before", "after", "all"}).Draw(rt, "hookat")
@@ -1565,6 +1594,9 @@ func classes(c Case) []string {
 	} else {
 		set["fork:none"] = true
 	}
+	if c.Mid > 0 {
+		set["cancel-in-flight"] = true
+	}
 	if c.NoReturning {
 		set["dialector:no-returning"] = true
 	} else {
@@ -1632,6 +1664,12 @@ func classes(c Case) []string {
 		}
 		if o.Limit > 0 {
 			set["batches:with-limit"] = true
+		}
+		if o.Kind == "assoc" && o.Form == "loaded" {
+			set["assoc:owner-with-loaded-keys"] = true
+		}
+		if o.Kind == "assoc" && o.Unscoped {
+			set["assoc:unscoped:"+o.Name+":"+o.Verb] = true
 		}
 		if o.Kind == "assoc" && len(o.IDs) > 0 {
 			set["assoc:slice-model-"+o.Verb] = true
@@ -1972,6 +2010,61 @@ func checkCase(c Case) (msg string, stmts int, herr error) {
 			return m, stmts, nil
 		}
 	}
+
+	// third run: the caller's context is cancelled in flight, at the start of the Mid-th driver call.
+	// What the operation returns then depends on the driver and on database/sql's own rollback of the
+	// transaction (context.Canceled, sql.ErrTxDone, an interrupted statement, or success): not judged. Judged:
+	// no panic, and every driver call - before and after the cancellation - was handed the caller's context
+	// (code that switches to another context once the caller's is done shows up here only).
+	if c.Mid > 0 {
+		if err := reseed(d); err != nil {
+			return "", stmts, fmt.Errorf("reseed: %w", err)
+		}
+		mctx, mcancel := liveContext(c.Ctx, id)
+		defer mcancel()
+		var mchild context.Context
+		if c.Fork != nil && !childInherits {
+			mchild = childAlive
+		}
+		seen, fired := 0, false
+		d.Rec.Reset()
+		d.Rec.Hook = func(e *recdrv.Event) {
+			if judged(e.Kind) {
+				if seen++; seen == c.Mid {
+					fired = true
+					mcancel()
+				}
+			}
+		}
+		err, spans := runProgram(d, c, mctx, other, mchild)
+		d.Rec.Hook = nil
+		evs := d.Rec.Events()
+		mcancel()
+		if fired {
+			evid.Class("cancel-in-flight:fired")
+		}
+		var pe errPanic
+		if errors.As(err, &pe) {
+			return fmt.Sprintf("the caller's context was cancelled in flight (at driver call %d) and the operation panicked: %v\n  driver events:\n%s", c.Mid, pe.v, renderEvents(evs)), stmts, nil
+		}
+		for _, e := range evs {
+			if !judged(e.Kind) {
+				continue
+			}
+			want, wantCtx, cancelledNow := id, mctx, true
+			if inSpan(spans, e.Seq) && !childInherits {
+				want, wantCtx, cancelledNow = childID, mchild, false
+			}
+			if e.Ctx == nil || e.Ctx.Value(markerKey{}) != interface{}(want) {
+				return fmt.Sprintf("the caller's context was cancelled in flight (at driver call %d): driver call %s received a context with marker %s, want %s\n  driver events:\n%s",
+					c.Mid, e.String(), markerOf(e.Ctx), want, renderEvents(evs)), stmts, nil
+			}
+			if why := notCallers(e.Ctx, wantCtx, cancelledNow); why != "" {
+				return fmt.Sprintf("the caller's context was cancelled in flight (at driver call %d): driver call %s received a context that carries the right marker but %s\n  driver events:\n%s",
+					c.Mid, e.String(), why, renderEvents(evs)), stmts, nil
+			}
+		}
+	}
 	return "", stmts, nil
 }
 
@@ -1985,6 +2078,7 @@ const rule = "C18: a program = handle bound by WithContext / Session{Context} (a
 	"Delete with Select(associations), Find/First/Take/Last with Preload (single, nested, clause.Associations, conditions) and relation Joins, Association(name).Find/Count/Append/Replace/Delete/Clear, " +
 	"FindInBatches (with statements in the callback), Rows+ScanRows, Row, Scan, Pluck, Count, FirstOrCreate/FirstOrInit, Raw, Exec over a seeded family; " +
 	"judged: every begin/prepare/exec/query driver event of the program carries the case's marker, reports the caller's deadline and is done once the caller's context is cancelled after the operation (a detached copy forwarding only values fails), " +
+	"optionally a third run in which the caller's context is cancelled when the k-th driver call starts (only the contexts of the driver calls and the absence of a panic are judged then), " +
 	"and under an already-cancelled context or one whose deadline has already passed no begin/prepare/exec/query event occurs and the error wraps context.Canceled / context.DeadlineExceeded (no panic); " +
 	"non-trivial = the operations issued at least 2 exec/query statements (save-point statements not counted) under the live context; distinct = the full program description"
 
